@@ -802,6 +802,19 @@ class Exec(object):
                     return seq
                 i += 1
                 continue
+            if isinstance(s, ast.Try) and not s.finalbody and rest and len(rest) <= 4 and \
+                    not all(_syn_ends(h.body) for h in s.handlers) and not getattr(s, '_threaded', False) and \
+                    not any(isinstance(x, (ast.For, ast.While, ast.Try)) for r_ in rest for x in ast.walk(r_)) and \
+                    not any(h.name and any(isinstance(n, ast.Name) and n.id == h.name for r_ in rest for n in ast.walk(r_)) for h in s.handlers):
+                # a short rest of the block is what every way out of the statement continues with: written into each way
+                # (handler that goes on, no-exception path), so that a flag set differently on the two ways is resolved
+                hs = [h if _syn_ends(h.body) else ast.ExceptHandler(type=h.type, name=h.name,
+                                                                     body=[x for x in h.body if not isinstance(x, ast.Pass)] + rest)
+                      for h in s.handlers]
+                t2 = ast.Try(body=s.body, handlers=hs, orelse=list(s.orelse) + rest, finalbody=[])
+                t2._threaded = True
+                stmts = stmts[:i] + [t2]
+                continue
             if isinstance(s, ast.Try) and s.orelse and not s.finalbody:
                 # `else` of a try = what follows it on the no-exception path.  Two spellings are brought to one:
                 #   every handler leaves           -> the else part is simply what comes next
@@ -1184,6 +1197,9 @@ class Exec(object):
         if c in st.known:
             # the same condition (same reads at the same versions) was decided on the way here
             seq.extend(self.block(body if st.known[c] else orelse, st))
+            return
+        if c[0] == 'const' and c[1] in ('True', 'False', 'None', '0', '1'):
+            seq.extend(self.block(body if c[1] in ('True', '1') else orelse, st))
             return
         sa, sb = st.copy(), st.copy()
         sa.known[c] = True
